@@ -157,6 +157,12 @@ static ld require_regular(const rmat *R) {
 }
 
 /* ---- op: MatrixInversion / MatrixLUInversion -------------------------------------------------------- */
+/* the inverse routines size and assign their output: inverting again into the matrix that already holds the inverse must
+ * return the same inverse (an accumulating kernel with a skipped re-initialisation would double it) */
+static void reuse_same(const char *fn, const char *cls, matrix *first, matrix *again) {
+  char key[160]; snprintf(key, sizeof key, "reuse|%s|%s", fn, cls);
+  vx_check(hm_maxdiff(first, again) == 0, key, "second call into the filled output differs by %g (max |value| %g)", hm_maxdiff(first, again), hm_maxabs(first));
+}
 static void op_inv(int lu) {
   sqm q; gen_square(&q, NMAX, 1); int n = q.n;
   rmat *R = rm_of(q.a, n, n); ld kap = require_regular(R); ld gam; int np = needs_pivot(R, &gam);
@@ -165,6 +171,8 @@ static void op_inv(int lu) {
   log_mat("M", m);
   arm(fn, cls); if (lu) MatrixLUInversion(m, inv); else MatrixInversion(m, inv); disarm(); vx_transition(1);
   log_mat(fn, inv);
+  { matrix *keep; initMatrix(&keep); MatrixCopy(inv, &keep); arm(fn, cls); if (lu) MatrixLUInversion(m, inv); else MatrixInversion(m, inv); disarm(); vx_transition(1);
+    reuse_same(fn, cls, keep, inv); DelMatrix(&keep); }
   char key[160]; snprintf(key, sizeof key, "shape|%s|%s", fn, cls);
   int shp = (int)inv->row == n && (int)inv->col == n; vx_check(shp, key, "%s: result is %zux%zu for order %d", q.tag, inv->row, inv->col, n);
   if (shp) {
@@ -341,6 +349,8 @@ static void op_pinv(void) {
   log_mat("A", a);
   arm("MatrixMoorePenrosePseudoinverse", cls); MatrixMoorePenrosePseudoinverse(a, inv); disarm(); vx_transition(1);
   log_mat("MatrixMoorePenrosePseudoinverse", inv);
+  { matrix *keep; initMatrix(&keep); MatrixCopy(inv, &keep); arm("MatrixMoorePenrosePseudoinverse", cls); MatrixMoorePenrosePseudoinverse(a, inv); disarm(); vx_transition(1);
+    reuse_same("MatrixMoorePenrosePseudoinverse", cls, keep, inv); DelMatrix(&keep); }
   char key[160]; snprintf(key, sizeof key, "shape|MatrixMoorePenrosePseudoinverse|%s", cls);
   int shp = (int)inv->row == n && (int)inv->col == m; vx_check(shp, key, "(%dx%d): result %zux%zu", m, n, inv->row, inv->col);
   if (shp) {
@@ -493,6 +503,8 @@ static void op_svd_eig(void) {
     matrix *pi; initMatrix(&pi);
     arm("MatrixPseudoinversion", cls); MatrixPseudoinversion(A, pi); disarm(); vx_transition(1);
     log_mat("MatrixPseudoinversion", pi);
+    { matrix *keep; initMatrix(&keep); MatrixCopy(pi, &keep); arm("MatrixPseudoinversion", cls); MatrixPseudoinversion(A, pi); disarm(); vx_transition(1);
+      reuse_same("MatrixPseudoinversion", cls, keep, pi); DelMatrix(&keep); }
     if ((int)pi->row == n && (int)pi->col == n) {
       rmat *I = rm_from(pi), *P = rm_mul(R, I); for (int i = 0; i < n; i++) RM(P, i, i) -= 1;
       ld kap = sref[0] / sref[n - 1];
